@@ -93,6 +93,7 @@ func cmdCheck(args []string) int {
 	workers := fs.Int("workers", 0, "worker count")
 	noReplay := fs.Bool("no-replay", false, "skip native replay")
 	noEvidence := fs.Bool("no-evidence", false, "do not write evidence")
+	noValidate := fs.Bool("no-validate", false, "skip native validation of sample paths")
 	smtlog := fs.Bool("smtlog", false, "keep SMT-LIB logs")
 	budget := fs.Duration("budget", 0, "wall-clock budget per harness")
 	solver := fs.String("solver", defaultSolver(), "solver binary")
@@ -180,6 +181,17 @@ func cmdCheck(args []string) int {
 			inconclusive = append(inconclusive, hr.Name+": "+firstLine(e))
 			if *verbose {
 				fmt.Fprintln(os.Stderr, e)
+			}
+		}
+		if !*noReplay && !*noValidate {
+			nval := 3
+			if *tier == "thorough" {
+				nval = cfg.SamplePaths
+			}
+			n, probs := validateSamples(w, *prop, h, hr, *repo, *tier, outDir, nval)
+			hr.Validated = n
+			for _, p := range probs {
+				inconclusive = append(inconclusive, p)
 			}
 		}
 		if len(hr.Violations) == 0 {
@@ -291,6 +303,39 @@ func matchKnown(k []KnownFinding, prop, sig string) *KnownFinding {
 // nativeReplay compiles the harness package against the real build and runs
 // the harness with the solver's assignment.
 func nativeReplay(w *World, rf *ReplayFile, rpath, repo string) (string, error) {
+	text, rerr := nativeRun(w, rf.Package, rpath, repo, rf.Tier)
+	for _, line := range strings.Split(text, "\n") {
+		if strings.HasPrefix(line, "KSE-REPLAY-RESULT:") {
+			return strings.TrimSpace(strings.TrimPrefix(line, "KSE-REPLAY-RESULT:")), nil
+		}
+	}
+	if strings.Contains(text, "panic: test timed out") {
+		return "timeout (hang) in native run", nil
+	}
+	if strings.Contains(text, "all goroutines are asleep") {
+		return "deadlock in native run", nil
+	}
+	if strings.Contains(text, "panic:") || strings.Contains(text, "fatal error:") {
+		i := strings.Index(text, "panic:")
+		if i < 0 {
+			i = strings.Index(text, "fatal error:")
+		}
+		return "panic (uncaught) " + firstLine(text[i:]), nil
+	}
+	tail := text
+	if len(tail) > 1500 {
+		tail = tail[len(tail)-1500:]
+	}
+	if rerr != nil {
+		return tail, fmt.Errorf("go test failed: %v", rerr)
+	}
+	return "no result line: " + tail, nil
+}
+
+// nativeRun runs TestVerifReplay of package pkg natively with KSE_REPLAY=rpath
+// and returns the combined output.
+func nativeRun(w *World, pkg, rpath, repo, tier string) (string, error) {
+	rf := &ReplayFile{Package: pkg, Tier: tier}
 	tmp, err := os.MkdirTemp("", "kse-replay-")
 	if err != nil {
 		return "", err
@@ -336,33 +381,7 @@ func nativeReplay(w *World, rf *ReplayFile, rpath, repo string) (string, error) 
 	cmd.Dir = repo
 	cmd.Env = append(os.Environ(), "KSE_REPLAY="+rpath, "KSE_TIER="+rf.Tier, "GOFLAGS=-mod=mod", "GOPROXY=off", "GOSUMDB=off", "GOTOOLCHAIN=local")
 	out, rerr := cmd.CombinedOutput()
-	text := string(out)
-	for _, line := range strings.Split(text, "\n") {
-		if strings.HasPrefix(line, "KSE-REPLAY-RESULT:") {
-			return strings.TrimSpace(strings.TrimPrefix(line, "KSE-REPLAY-RESULT:")), nil
-		}
-	}
-	if strings.Contains(text, "panic: test timed out") {
-		return "timeout (hang) in native run", nil
-	}
-	if strings.Contains(text, "all goroutines are asleep") {
-		return "deadlock in native run", nil
-	}
-	if strings.Contains(text, "panic:") || strings.Contains(text, "fatal error:") {
-		i := strings.Index(text, "panic:")
-		if i < 0 {
-			i = strings.Index(text, "fatal error:")
-		}
-		return "panic (uncaught) " + firstLine(text[i:]), nil
-	}
-	tail := text
-	if len(tail) > 1500 {
-		tail = tail[len(tail)-1500:]
-	}
-	if rerr != nil {
-		return tail, fmt.Errorf("go test failed: %v", rerr)
-	}
-	return "no result line: " + tail, nil
+	return string(out), rerr
 }
 
 func cmdReplay(args []string) int {
@@ -412,7 +431,9 @@ func writeEvidence(root, prop, tier string, seed int, results []*HarnessResult, 
 	var solver SolverStats
 	bounds := map[string]interface{}{}
 	oblig, disch := 0, 0
+	validated := 0
 	for _, r := range results {
+		validated += r.Validated
 		evals += r.Paths
 		distinct += r.Distinct
 		for i, s := range r.Samples {
